@@ -133,6 +133,13 @@ class ChunkedReceiver:
                     s = s[pos + 2 :]
                     self.control_line = b""
 
+                    if not line:
+                        # an empty line is not a chunk-size
+                        self.error = BadRequest("Invalid chunk size")
+                        self.all_chunks_received = True
+
+                        break
+
                     if line:
                         # Begin a new chunk.
                         semi = line.find(b";")
